@@ -51,6 +51,14 @@ class P(Prop):
         ("TracklibVerif.Props.C17", "TV.C17.abscurv_shared", "computeAbsCurv(track k) as one step of a history on shared observations: returns [absc 0..] of the current positions whatever foreign slots the objects carry; track k reads it under abs_curv"),
         ("TracklibVerif.Props.C17", "TV.C17.speed_shared", "estimate_speed(track k) on shared observations: speed column of the current positions and of the absolute times of the CURRENT timestamp fields"),
         ("TracklibVerif.Props.C17", "TV.C17.positions_and_stamps_unchanged", "for EVERY world (aligned or not, also on exceptions) and every feature operation / entry point: position and stamp of every observation object and the reference list of every track are unchanged"),
+        ("TracklibVerif.Props.C17", "TV.C17.class_distance", "which distance the features use per coordinate class: ENU -> sqrt(dE^2+dN^2); Geo -> norm2D of self.toENUCoords(point) (East/North in the local frame at `point`); ECEF -> refused by Obs.distance2DTo, AttributeError on position.distance2DTo"),
+        ("TracklibVerif.Props.C17", "TV.C17.enu_class_is_cinematics", "on ENU tracks the class-dispatching programs are computeAbsCurv / estimate_speed of the first model (no exception, third coordinate not read)"),
+        ("TracklibVerif.Props.C17", "TV.C17.abscurv_prefix_coords", "T1 for every class with a planimetric distance (ENU, Geo): s[0]=0, s[i+1]=s[i]+d_class(P[i+1],P[i]), abs_curv stored, ds removed; any scalar type (Float with libm included)"),
+        ("TracklibVerif.Props.C17", "TV.C17.speed_def_coords", "T2 for every class with a planimetric distance: fixes (1,0)/(n-1,n-2)/(i+1,i-1), NaN iff the elapsed time is zero, else d_class / elapsed"),
+        ("TracklibVerif.Props.C17", "TV.C17.pure_coords", "for every class, exceptions included: class and coordinates of the positions, timestamps and the other features are unchanged"),
+        ("TracklibVerif.Props.C17", "TV.C17.ecef_refused", "ECEF tracks of n>=2 fixes: computeAbsCurv refused, estimate_speed / computeCurvAbsBetweenTwoPoints AttributeError; a ds / speed column of zeros stays on the track"),
+        ("TracklibVerif.Props.C17", "TV.C17.abscurv_monotone_coords", "abs_curv never decreases for every class without exact arithmetic (0 <= sqrt x, a <= a+d for d >= 0), whatever the trigonometric functions return"),
+        ("TracklibVerif.Props.C17", "TV.C17.geo_distance_horizontal", "over the reals (sin^2+cos^2=1, genuine sqrt): GeoCoords.distance2DTo is the d >= 0 with d^2 + U^2 = |ECEF chord|^2 (horizontal part of the chord in the local frame at `point`), 0 for a repeated position"),
     ]
     partial = []
     open_statements = ["IEEE rounding of sqrt / + / division is outside the theorems (ordered-field statement; the recurrences abscurv_prefix / abscurv_table / speed_table hold for any scalar type, so also for the Float operations in Python's order); sampled by the transfer check with rel. tolerance 1e-9",
